@@ -2,13 +2,14 @@ import FparserModel.Wire
 import FpDriver.Splitline
 import FpDriver.Norm
 import FpDriver.Expr
+import FpDriver.SymTree
 
 /-! dispatcher: one handler per model; each handler lives in FpDriver/<Model>.lean -/
 namespace FpDriver
 open Fp.Wire
 
 def handlers : List (String → List String → Option String) :=
-  [FpDriver.Splitline.handle, FpDriver.Norm.handle, FpDriver.Expr.handle]
+  [FpDriver.Splitline.handle, FpDriver.Norm.handle, FpDriver.Expr.handle, FpDriver.SymTree.handle]
 
 def dispatch (line : String) : String :=
   match fields line with
